@@ -9,6 +9,9 @@ import (
 
 var table = map[string]func(*checks.Run){
 	"C01": checks.C01,
+	"FIX": checks.Fixtures,
+	"C02": checks.C02,
+	"C19": checks.C19,
 }
 
 func main() {
